@@ -522,9 +522,11 @@ class Representation(ObjectWithFields):
         else:
             timecode = segment_time
 
-        if segment_num is None:
-            # TODO: handle special cases where segment durations vary within
-            # the reference Representation
+        time_addressed: bool = segment_num is None
+        if time_addressed:
+            # an estimate, only used in the error message. The number is
+            # calculated once the segment has been found, as segment
+            # durations vary
             segment_num = int(segment_time // self.segment_duration)
 
         seg_delta = self.timescale_to_timedelta(timecode)
@@ -546,6 +548,13 @@ class Representation(ObjectWithFields):
 
         mod_segment, origin_time, _ = self.calculate_segment_from_timecode(
             timecode, segment_time is None)
+        if time_addressed:
+            # number the segments in the order of the timeline: whole loops of
+            # the stream followed by the position within this loop
+            ref_duration_tc: int = timing.stream_reference.media_duration_using_timescale(
+                self.timescale)
+            num_loops: int = int(origin_time // ref_duration_tc)
+            segment_num = (num_loops * self.num_media_segments) + mod_segment - 1
         logging.debug('segment=%d time=%d mod_segment=%d origin_time=%d',
                       segment_num, timecode, mod_segment, origin_time)
         return SegmentNumberAndTime(segment_num, mod_segment, origin_time)
